@@ -22,9 +22,6 @@ Proof.
     + f_equal. now apply IH.
 Qed.
 
-Definition sdata_bytes (o : sout) : list N := match o with SData d => d | _ => [] end.
-Definition out_bytes (l : list sout) : list N := concat (map sdata_bytes l).
-
 Lemma out_bytes_app a b : out_bytes (a ++ b) = out_bytes a ++ out_bytes b.
 Proof. unfold out_bytes. now rewrite map_app, concat_app. Qed.
 
@@ -101,39 +98,65 @@ Proof.
     unfold out_bytes. now rewrite map_map.
 Qed.
 
-(* a hyper-like consumer (asks is_end_stream before the first poll and after every data frame,
-   stops when it is true) over an inner body that honours the http_body contract (true only
-   once its trailers have been yielded - tonic's EncodeBody): every data item AND the trailers
-   frame are taken, then is_end_stream stops the consumer *)
+(* ---- hyper-like consumers: is_end_stream never hides an item ---- *)
+(* inner bodies that honour the http_body contract (mode 1: is_end_stream is true only once
+   every frame has been yielded - tonic's EncodeBody, hyper's Incoming) *)
+Lemma inner_eos_1 evs : inner_eos 1 evs = match evs with [] => true | _ => false end.
+Proof. reflexivity. Qed.
+
+Lemma hyper_encode_go_complete e evs :
+  let '(l, b) := hyper_encode_go 1 e evs in
+  l ++ (if b then [SNone] else []) = drain_encode e evs.
+Proof.
+  induction evs as [|x r IH]; [reflexivity|].
+  cbn [hyper_encode_go drain_encode].
+  destruct (poll_encode e (answer_of x)) as [|d|t|c| |]; try reflexivity.
+  - exact IH.
+  - cbn [wc_is_end_stream wc_response wc_dir]. rewrite inner_eos_1.
+    destruct r as [|y r']; [reflexivity|].
+    destruct (hyper_encode_go 1 e (y :: r')) as [l b]. cbn [app]. now rewrite IH.
+Qed.
+
+(* For EVERY script of the inner body (errors, trailers anywhere, no trailers at all) and both
+   encodings: what the hyper-like consumer takes, plus the end of stream it infers from
+   is_end_stream, is exactly what a poll-until-None consumer reads.  An is_end_stream that
+   answered true while an item is still to come (a staged frame, the trailers frame) refutes it. *)
+Theorem hyper_encode_complete e evs :
+  let '(l, b) := hyper_encode 1 e evs in
+  l ++ (if b then [SNone] else []) = drain_encode e evs.
+Proof.
+  unfold hyper_encode. cbn [wc_is_end_stream wc_response wc_dir]. rewrite inner_eos_1.
+  destruct evs as [|x r]; [reflexivity|]. apply hyper_encode_go_complete.
+Qed.
+
+(* a gRPC response read by the hyper-like consumer: every data item AND the trailers frame are
+   taken, then is_end_stream stops the consumer *)
+Lemma eos1_app evs x : inner_eos 1 (evs ++ [x]) = false.
+Proof. destruct evs; reflexivity. Qed.
+
+Lemma resp_hyper_go e evs t :
+  only_data_or_pending evs = true -> nlen (encode_trailers t) <= U32_MAX ->
+  hyper_encode_go 1 e (evs ++ [EvTrailers t]) =
+  (map (fun d => SData (encode_bytes e d)) (datas evs) ++ [SData (encode_bytes e (trailers_frame t))], true).
+Proof.
+  intros H L. induction evs as [|x r IH].
+  - cbn [app hyper_encode_go answer_of poll_encode datas map]. unfold make_trailers_frame.
+    replace (U32_MAX <? nlen (encode_trailers t)) with false by lia. reflexivity.
+  - cbn [only_data_or_pending forallb] in H. apply andb_true_iff in H as [Hx Hr].
+    specialize (IH Hr).
+    destruct x as [|d|t'|]; try discriminate;
+      cbn [app hyper_encode_go answer_of poll_encode datas map].
+    + exact IH.
+    + cbn [wc_is_end_stream wc_response wc_dir]. rewrite eos1_app, IH. reflexivity.
+Qed.
+
 Theorem resp_hyper e evs t :
   only_data_or_pending evs = true -> nlen (encode_trailers t) <= U32_MAX ->
   hyper_encode 1 e (evs ++ [EvTrailers t]) =
   (map (fun d => SData (encode_bytes e d)) (datas evs) ++ [SData (encode_bytes e (trailers_frame t))], true).
 Proof.
-  intros H L. induction evs as [|x r IH].
-  - cbn [app hyper_encode inner_eos answer_of poll_encode datas map]. unfold make_trailers_frame.
-    replace (U32_MAX <? nlen (encode_trailers t)) with false by lia. reflexivity.
-  - cbn [only_data_or_pending forallb] in H. apply andb_true_iff in H as [Hx Hr].
-    specialize (IH Hr).
-    destruct x as [|d|t'|]; try discriminate;
-      cbn [app hyper_encode answer_of poll_encode datas map]; unfold inner_eos at 1;
-      change (1 =? 1) with true; cbv iota; rewrite IH; reflexivity.
-Qed.
-
-(* the http_body contract of is_end_stream in the Encode direction, against the whole state
-   (staging buffer and inner body): when it answers true - over an inner body that answers true
-   only at its end - NOTHING more is delivered, whatever [buf] holds; and the state machine is
-   the stateless translation used above *)
-Theorem encode_is_end_stream_contract e buf evs :
-  encode_is_end_stream 1 buf evs = true -> drain_encode_st e buf evs = [SNone].
-Proof.
-  unfold encode_is_end_stream, inner_eos. change (1 =? 1) with true. cbv iota.
-  destruct evs; [reflexivity|discriminate].
-Qed.
-Lemma drain_encode_st_eq e buf evs : drain_encode_st e buf evs = drain_encode e evs.
-Proof.
-  induction evs as [|x r IH]; [reflexivity|]. cbn [drain_encode_st drain_encode poll_encode_st].
-  destruct (poll_encode e (answer_of x)); try reflexivity; now rewrite IH.
+  intros H L. unfold hyper_encode. cbn [wc_is_end_stream wc_response wc_dir].
+  rewrite eos1_app. now apply resp_hyper_go.
 Qed.
 
 (* ================= request direction ================= *)
@@ -204,16 +227,17 @@ Proof.
   unfold max_decodable, nlen. rewrite Nat2N.inj_mul. rewrite Nat2N.inj_div. cbn. lia.
 Qed.
 
-(* decode_chunk on a buffer that is the beginning of the padded encoding of [rem] *)
-Lemma decode_chunk_prefix buf X rem :
-  bytes_ok rem = true -> buf ++ X = enc true rem ->
+(* decode_chunk on a buffer that is the beginning of the padded encoding of [rem] followed by
+   fewer than four further characters [extra] *)
+Lemma decode_chunk_prefix buf X rem extra :
+  bytes_ok rem = true -> buf ++ X = enc true rem ++ extra -> (length extra < 4)%nat ->
   let k := (length buf / 4)%nat in
   ((length buf < 4)%nat /\ decode_chunk buf = CNone) \/
   ((4 <= length buf)%nat /\
    decode_chunk buf = CData (firstn (3 * k) rem) (skipn (4 * k) buf) /\
-   skipn (4 * k) buf ++ X = enc true (skipn (3 * k) rem)).
+   skipn (4 * k) buf ++ X = enc true (skipn (3 * k) rem) ++ extra).
 Proof.
-  intros Hb H k. unfold decode_chunk.
+  intros Hb H Hx k. unfold decode_chunk.
   destruct (nlen buf <? 4) eqn:E.
   - left. split; [unfold nlen in E; lia|reflexivity].
   - right. assert (L4 : (4 <= length buf)%nat) by (unfold nlen in E; lia).
@@ -221,49 +245,64 @@ Proof.
     rewrite max_decodable_nat, ntake_nat, ndrop_nat. fold k.
     assert (Lk : (4 * k <= length buf)%nat).
     { unfold k. pose proof (Nat.div_mod (length buf) 4 ltac:(lia)). lia. }
-    assert (Le : (4 * k <= length (enc true rem))%nat) by (rewrite <- H, app_length; lia).
+    assert (Le : (4 * k <= length (enc true rem))%nat).
+    { assert (L : (length buf <= length (enc true rem) + length extra)%nat).
+      { rewrite <- app_length, <- H, app_length. lia. }
+      rewrite enc_length_pad in *. lia. }
     destruct (enc_cut rem k Le) as [E1 E2].
     assert (F : firstn (4 * k) buf = enc true (firstn (3 * k) rem)).
-    { rewrite <- E1, <- H. rewrite firstn_app.
-      replace (4 * k - length buf)%nat with 0%nat by lia. cbn [firstn]. now rewrite app_nil_r. }
+    { rewrite <- E1.
+      transitivity (firstn (4 * k) (buf ++ X)).
+      - rewrite firstn_app. replace (4 * k - length buf)%nat with 0%nat by lia.
+        cbn [firstn]. now rewrite app_nil_r.
+      - rewrite H, firstn_app. replace (4 * k - length (enc true rem))%nat with 0%nat by lia.
+        cbn [firstn]. now rewrite app_nil_r. }
     rewrite F, dec_enc by (now apply bytes_ok_firstn).
     split; [reflexivity|].
-    rewrite <- E2, <- H. rewrite skipn_app.
-    replace (4 * k - length buf)%nat with 0%nat by lia. reflexivity.
+    rewrite <- E2.
+    transitivity (skipn (4 * k) (buf ++ X)).
+    + rewrite skipn_app. replace (4 * k - length buf)%nat with 0%nat by lia. reflexivity.
+    + rewrite H, skipn_app. replace (4 * k - length (enc true rem))%nat with 0%nat by lia. reflexivity.
 Qed.
 
-Inductive b64_res (rem : list N) (evs : list ev) (total : nat) : sout * list N * list ev -> Prop :=
+(* how the body ends once everything decodable has been handed out *)
+Definition final_of (extra : list N) : sout :=
+  if nlen extra =? 0 then SNone else SErr SE_LEFTOVER.
+
+Inductive b64_res (rem extra : list N) (evs : list ev) (total : nat) : sout * list N * list ev -> Prop :=
 | BR_data d buf' evs' rem' :
-    rem = d ++ rem' -> buf' ++ concat (datas evs') = enc true rem' ->
+    rem = d ++ rem' -> buf' ++ concat (datas evs') = enc true rem' ++ extra ->
     only_data_or_pending evs' = true -> (length evs' <= length evs)%nat ->
     (length buf' + length (concat (datas evs')) + 4 <= total)%nat ->
-    b64_res rem evs total (SData d, buf', evs')
+    b64_res rem extra evs total (SData d, buf', evs')
 | BR_pending buf' evs' :
-    buf' ++ concat (datas evs') = enc true rem ->
+    buf' ++ concat (datas evs') = enc true rem ++ extra ->
     only_data_or_pending evs' = true -> (length evs' < length evs)%nat ->
     (length buf' + length (concat (datas evs')) <= total)%nat ->
-    b64_res rem evs total (SPending, buf', evs')
-| BR_none buf' : rem = [] -> b64_res rem evs total (SNone, buf', []).
+    b64_res rem extra evs total (SPending, buf', evs')
+| BR_none buf' : rem = [] -> b64_res rem extra evs total (final_of extra, buf', []).
 
-Lemma poll_b64_spec evs : forall buf rem,
+Lemma poll_b64_spec extra evs : (length extra < 4)%nat -> forall buf rem,
   bytes_ok rem = true -> only_data_or_pending evs = true ->
-  buf ++ concat (datas evs) = enc true rem ->
-  b64_res rem evs (length buf + length (concat (datas evs))) (poll_decode_b64 buf evs).
+  buf ++ concat (datas evs) = enc true rem ++ extra ->
+  b64_res rem extra evs (length buf + length (concat (datas evs))) (poll_decode_b64 buf evs).
 Proof.
-  induction evs as [|x r IH]; intros buf rem Hb He H.
+  intros Hx. induction evs as [|x r IH]; intros buf rem Hb He H.
   - cbn [poll_decode_b64].
-    destruct (decode_chunk_prefix buf _ rem Hb H) as [[L ->]|(L & -> & E)].
+    destruct (decode_chunk_prefix buf _ rem extra Hb H Hx) as [[L ->]|(L & -> & E)].
     + cbn [datas concat] in H. rewrite app_nil_r in H.
-      assert (rem = []) by (apply enc_short; now rewrite <- H). subst rem.
-      cbn [enc] in H. subst buf. cbn. now apply BR_none.
+      assert (rem = []).
+      { apply enc_short. assert (length buf = length (enc true rem) + length extra)%nat
+          by (rewrite <- app_length; now f_equal). lia. }
+      subst rem. cbn [enc app] in H. subst buf. now apply BR_none.
     + set (k := (length buf / 4)%nat) in *.
       assert (1 <= k)%nat by (unfold k; apply Nat.div_le_lower_bound; lia).
-      apply (BR_data _ _ _ _ _ _ (skipn (3 * k) rem)); try assumption; try reflexivity.
+      apply (BR_data _ _ _ _ _ _ _ (skipn (3 * k) rem)); try assumption; try reflexivity.
       all: try (now rewrite firstn_skipn).
       all: try (rewrite skipn_length; lia).
-  - cbn [only_data_or_pending forallb] in He. apply andb_true_iff in He as [Hx Hr].
+  - cbn [only_data_or_pending forallb] in He. apply andb_true_iff in He as [Hx' Hr].
     cbn [poll_decode_b64].
-    destruct (decode_chunk_prefix buf _ rem Hb H) as [[L ->]|(L & -> & E)].
+    destruct (decode_chunk_prefix buf _ rem extra Hb H Hx) as [[L ->]|(L & -> & E)].
     + destruct x as [|d|t|]; try discriminate.
       * apply BR_pending; try assumption; cbn [datas length] in *; try lia.
       * cbn [datas concat] in H. rewrite app_assoc in H.
@@ -271,26 +310,29 @@ Proof.
         remember (poll_decode_b64 (buf ++ d) r) as res eqn:ER. clear ER.
         cbn [datas concat length]. rewrite app_length in W.
         destruct W as [d' buf' evs' rem' E1 E2 E3 E4 E5|buf' evs' E2 E3 E4 E5|buf' E1].
-        -- apply (BR_data _ _ _ _ _ _ rem'); try assumption; rewrite ?app_length; cbn [length]; lia.
+        -- apply (BR_data _ _ _ _ _ _ _ rem'); try assumption; rewrite ?app_length; cbn [length]; lia.
         -- apply BR_pending; try assumption; rewrite ?app_length; cbn [length]; lia.
         -- now apply BR_none.
     + set (k := (length buf / 4)%nat) in *.
       assert (1 <= k)%nat by (unfold k; apply Nat.div_le_lower_bound; lia).
-      apply (BR_data _ _ _ _ _ _ (skipn (3 * k) rem)); try assumption; try reflexivity.
+      apply (BR_data _ _ _ _ _ _ _ (skipn (3 * k) rem)); try assumption; try reflexivity.
       all: try (now rewrite firstn_skipn).
-      all: try (cbn [only_data_or_pending forallb]; now rewrite Hx, Hr).
+      all: try (cbn [only_data_or_pending forallb]; now rewrite Hx', Hr).
       all: try (rewrite skipn_length; lia).
 Qed.
 
-Lemma drain_b64_spec n : forall buf evs rem,
+Lemma final_of_final extra : match final_of extra with SPending | SData _ => False | _ => True end.
+Proof. unfold final_of. now destruct (nlen extra =? 0). Qed.
+
+Lemma drain_b64_spec extra n : (length extra < 4)%nat -> forall buf evs rem,
   bytes_ok rem = true -> only_data_or_pending evs = true ->
-  buf ++ concat (datas evs) = enc true rem ->
+  buf ++ concat (datas evs) = enc true rem ++ extra ->
   (length evs + (length buf + length (concat (datas evs))) / 4 + 2 <= n)%nat ->
-  exists ds, drain_b64 n buf evs = map SData ds ++ [SNone] /\ concat ds = rem.
+  exists ds, drain_b64 n buf evs = map SData ds ++ [final_of extra] /\ concat ds = rem.
 Proof.
-  induction n as [|n IH]; intros buf evs rem Hb He H L; [lia|].
+  intros Hx. induction n as [|n IH]; intros buf evs rem Hb He H L; [lia|].
   cbn [drain_b64].
-  pose proof (poll_b64_spec evs buf rem Hb He H) as W.
+  pose proof (poll_b64_spec extra evs Hx buf rem Hb He H) as W.
   remember (poll_decode_b64 buf evs) as res eqn:ER. clear ER.
   destruct W as [d buf' evs' rem' E1 E2 E3 E4 E5|buf' evs' E2 E3 E4 E5|buf' E1].
   - subst rem. rewrite bytes_ok_app in Hb. apply andb_true_iff in Hb as [_ Hb'].
@@ -307,7 +349,8 @@ Proof.
               (length buf + length (concat (datas evs))) / 4)%nat by (apply Nat.div_le_mono; lia).
       lia. }
     exists ds. split; assumption.
-  - exists []. split; [reflexivity|]. now subst rem.
+  - exists []. split; [|now subst rem]. cbn [map app].
+    pose proof (final_of_final extra) as F. now destruct (final_of extra).
 Qed.
 
 (* text: the canonical padded base64 of ANY payload, cut at ARBITRARY positions (inside a
@@ -318,7 +361,516 @@ Theorem req_text payload evs :
   exists ds, drain_request Base64 evs = map SData ds ++ [SNone] /\ concat ds = payload.
 Proof.
   intros Hb He H. unfold drain_request, b64_polls.
-  apply drain_b64_spec; try assumption. cbn [length]. lia.
+  apply (drain_b64_spec [] _ ltac:(cbn; lia)); try assumption.
+  - cbn [app]. now rewrite app_nil_r.
+  - cbn [length]. lia.
+Qed.
+
+(* text followed by one to three characters that do not make a quantum (M11a: this is what an
+   UNPADDED body looks like, see req_text_unpadded): the payload arrives, then the body fails
+   with "malformed base64 request" - the stray characters are never decoded *)
+Theorem req_text_leftover payload extra evs :
+  bytes_ok payload = true -> only_data_or_pending evs = true ->
+  (0 < length extra < 4)%nat ->
+  concat (datas evs) = enc true payload ++ extra ->
+  exists ds, drain_request Base64 evs = map SData ds ++ [SErr SE_LEFTOVER] /\ concat ds = payload.
+Proof.
+  intros Hb He Hx H. unfold drain_request, b64_polls.
+  destruct (drain_b64_spec extra (length evs + length (concat (datas evs)) / 4 + 2) ltac:(lia)
+              [] evs payload Hb He H) as [ds [D1 D2]].
+  - cbn [length]. lia.
+  - exists ds. split; [|exact D2]. rewrite D1. unfold final_of, nlen.
+    destruct extra; [cbn in Hx; lia|]. reflexivity.
+Qed.
+
+(* ---- unpadded text (M11a) ---- *)
+Lemma enc_nopad_split l :
+  let q := (length l / 3)%nat in
+  enc false l = enc true (firstn (3 * q) l) ++ enc false (skipn (3 * q) l) /\
+  length (skipn (3 * q) l) = (length l mod 3)%nat.
+Proof.
+  induction l as [|a|a b|a b c r IH] using list_ind3; try (split; reflexivity).
+  cbn zeta in *. cbn [length].
+  replace (S (S (S (length r)))) with (length r + 1 * 3)%nat by lia.
+  rewrite Nat.div_add, Nat.mod_add by lia.
+  replace (3 * (length r / 3 + 1))%nat with (S (S (S (3 * (length r / 3))))) by lia.
+  cbn [firstn skipn enc]. destruct IH as [E1 E2]. split; [|exact E2].
+  rewrite <- app_assoc. f_equal. exact E1.
+Qed.
+
+(* the UNPADDED base64 text of a payload whose length is not a multiple of 3, cut at arbitrary
+   positions: the inner service receives the payload without its last one or two bytes and
+   then the error "malformed base64 request" - although the engine is Indifferent to padding *)
+Theorem req_text_unpadded payload evs :
+  bytes_ok payload = true -> only_data_or_pending evs = true ->
+  (length payload mod 3 <> 0)%nat ->
+  concat (datas evs) = enc false payload ->
+  exists ds, drain_request Base64 evs = map SData ds ++ [SErr SE_LEFTOVER] /\
+             concat ds = firstn (3 * (length payload / 3)) payload.
+Proof.
+  intros Hb He Hm H. destruct (enc_nopad_split payload) as [E1 E2]. cbn zeta in *.
+  set (q := (length payload / 3)%nat) in *.
+  apply (req_text_leftover (firstn (3 * q) payload) (enc false (skipn (3 * q) payload)) evs).
+  - now apply bytes_ok_firstn.
+  - exact He.
+  - pose proof (Nat.mod_upper_bound (length payload) 3 ltac:(lia)) as U.
+    destruct (skipn (3 * q) payload) as [|a [|b [|c r]]]; cbn [length] in E2; cbn [enc app length]; lia.
+  - now rewrite H.
+Qed.
+
+(* ---- ANY text body (M11): what is delivered is an independent per-quantum decoding ---- *)
+Lemma list_ind4 {A} (P : list A -> Prop) :
+  P [] -> (forall a, P [a]) -> (forall a b, P [a; b]) -> (forall a b c, P [a; b; c]) ->
+  (forall a b c d r, P r -> P (a :: b :: c :: d :: r)) -> forall l, P l.
+Proof.
+  intros H0 H1 H2 H3 H4.
+  fix IH 1. intros [|a [|b [|c [|d r]]]];
+    [exact H0 | apply H1 | apply H2 | apply H3 | apply H4; apply IH].
+Qed.
+
+Lemma val_some_not_pad z v : val_of z = Some v -> (z =? PAD) = false.
+Proof.
+  intros H. destruct (z =? PAD) eqn:E; [|reflexivity].
+  apply N.eqb_eq in E. subst z. rewrite val_of_pad in H. discriminate.
+Qed.
+
+Lemma dec_quanta_cons4 a b c e r :
+  dec_quanta (a :: b :: c :: e :: r) =
+  match dec [a; b; c; e], dec_quanta r with
+  | Some x, Some y => Some (x ++ y)
+  | _, _ => None
+  end.
+Proof. reflexivity. Qed.
+
+Lemma dec_cons4 a b c e x rest :
+  dec (a :: b :: c :: e :: x :: rest) =
+  match val_of a, val_of b, val_of c, val_of e, dec (x :: rest) with
+  | Some v0, Some v1, Some v2, Some v3, Some r => Some (dec4 v0 v1 v2 v3 ++ r)
+  | _, _, _, _, _ => None
+  end.
+Proof. reflexivity. Qed.
+
+(* tonic's decoder (whole input at once, padding only at the very end) agrees with the
+   per-quantum reader on every input it accepts *)
+Lemma dec_quanta_of_dec l : forall d, (length l mod 4 = 0)%nat -> dec l = Some d -> dec_quanta l = Some d.
+Proof.
+  induction l as [|a|a b|a b c|a b c e rest IH] using list_ind4; intros d L H;
+    try (cbn [length] in L; cbn in L; discriminate).
+  - cbn in H. now inversion H.
+  - destruct rest as [|x rest'].
+    + cbn [dec] in H. cbn [dec_quanta]. cbn [dec]. rewrite H. cbn. now rewrite app_nil_r.
+    + assert (L' : (length (x :: rest') mod 4 = 0)%nat).
+      { cbn [length] in *. 
+        replace (S (S (S (S (S (length rest')))))) with (S (length rest') + 1 * 4)%nat in L by lia.
+        now rewrite Nat.mod_add in L by lia. }
+      rewrite dec_cons4 in H.
+      destruct (val_of a) as [v0|] eqn:Ea; [|discriminate].
+      destruct (val_of b) as [v1|] eqn:Eb; [|discriminate].
+      destruct (val_of c) as [v2|] eqn:Ec; [|discriminate].
+      destruct (val_of e) as [v3|] eqn:Ee; [|discriminate].
+      destruct (dec (x :: rest')) as [r|] eqn:Er; [|discriminate].
+      inversion H; subst d. clear H.
+      rewrite dec_quanta_cons4, (IH r L' eq_refl).
+      cbn [dec dec_suffix]. rewrite Ea, Eb, Ec, Ee.
+      now rewrite (val_some_not_pad c v2 Ec), (val_some_not_pad e v3 Ee).
+Qed.
+
+Lemma dec_quanta_app a : forall x b y,
+  dec_quanta a = Some x -> dec_quanta b = Some y -> dec_quanta (a ++ b) = Some (x ++ y).
+Proof.
+  induction a as [|a0|a0 a1|a0 a1 a2|a0 a1 a2 a3 r IH] using list_ind4; intros x b y Ha Hb;
+    try discriminate.
+  - cbn in Ha. inversion Ha. exact Hb.
+  - cbn [app]. cbn [dec_quanta] in *.
+    destruct (dec [a0; a1; a2; a3]) as [q|]; [|discriminate].
+    destruct (dec_quanta r) as [z|] eqn:Er; [|discriminate].
+    inversion Ha; subst x. rewrite (IH z b y eq_refl Hb). now rewrite app_assoc.
+Qed.
+
+Lemma firstn_add {A} (a b : nat) (l : list A) :
+  (a <= length l)%nat -> firstn (a + b) l = firstn a l ++ firstn b (skipn a l).
+Proof.
+  intros L. rewrite <- (firstn_skipn a l) at 1.
+  replace a with (length (firstn a l)) at 1 by (rewrite firstn_length; lia).
+  now rewrite firstn_app_2.
+Qed.
+
+Lemma poll_b64_sound evs : forall buf, only_data_or_pending evs = true ->
+  let W := buf ++ concat (datas evs) in
+  match poll_decode_b64 buf evs with
+  | (SData d, buf', evs') =>
+      exists k, (1 <= k)%nat /\ (4 * k <= length W)%nat /\
+        dec_quanta (firstn (4 * k) W) = Some d /\
+        buf' ++ concat (datas evs') = skipn (4 * k) W /\
+        only_data_or_pending evs' = true /\ (length evs' <= length evs)%nat
+  | (SPending, buf', evs') =>
+      buf' ++ concat (datas evs') = W /\ only_data_or_pending evs' = true /\
+      (length evs' < length evs)%nat
+  | (SNone, _, _) => W = []
+  | (SErr c, _, _) => c = SE_BASE64 \/ c = SE_LEFTOVER
+  | _ => False
+  end.
+Proof.
+  assert (BIGBUF : forall buf evs, (nlen buf <? 4) = false ->
+    match (match dec (ntake (max_decodable buf) buf) with
+           | Some d => CData d (ndrop (max_decodable buf) buf)
+           | None => CErr (ndrop (max_decodable buf) buf) end) with
+    | CData d rest =>
+        exists k, (1 <= k)%nat /\ (4 * k <= length (buf ++ concat (datas evs)))%nat /\
+          dec_quanta (firstn (4 * k) (buf ++ concat (datas evs))) = Some d /\
+          rest ++ concat (datas evs) = skipn (4 * k) (buf ++ concat (datas evs))
+    | _ => True
+    end).
+  { intros buf evs0 E. rewrite max_decodable_nat, ntake_nat, ndrop_nat.
+    set (k := (length buf / 4)%nat).
+    assert (L4 : (4 <= length buf)%nat) by (unfold nlen in E; lia).
+    assert (Lk : (4 * k <= length buf)%nat).
+    { unfold k. pose proof (Nat.div_mod (length buf) 4 ltac:(lia)). lia. }
+    assert (1 <= k)%nat by (unfold k; apply Nat.div_le_lower_bound; lia).
+    destruct (dec (firstn (4 * k) buf)) as [d|] eqn:D; [|exact I].
+    exists k. repeat split; try assumption.
+    - rewrite app_length. lia.
+    - rewrite firstn_app. replace (4 * k - length buf)%nat with 0%nat by lia.
+      cbn [firstn]. rewrite app_nil_r. apply dec_quanta_of_dec; [|exact D].
+      rewrite firstn_length. replace (Nat.min (4 * k) (length buf)) with (k * 4)%nat by lia.
+      apply Nat.mod_mul. lia.
+    - rewrite skipn_app. replace (4 * k - length buf)%nat with 0%nat by lia. reflexivity. }
+  induction evs as [|x r IH]; intros buf He W; subst W.
+  - cbn [poll_decode_b64]. unfold decode_chunk. destruct (nlen buf <? 4) eqn:E.
+    + cbn [datas concat]. rewrite app_nil_r.
+      destruct (nlen buf =? 0) eqn:E0.
+      * destruct buf; [reflexivity|unfold nlen in E0; cbn [length] in E0; lia].
+      * now right.
+    + specialize (BIGBUF buf [] E).
+      destruct (dec (ntake (max_decodable buf) buf)) as [d|].
+      * destruct BIGBUF as (k & K1 & K2 & K3 & K4). exists k. repeat split; try assumption. lia.
+      * now left.
+  - cbn [only_data_or_pending forallb] in He. apply andb_true_iff in He as [Hx Hr].
+    cbn [poll_decode_b64]. unfold decode_chunk. destruct (nlen buf <? 4) eqn:E.
+    + destruct x as [|d|t|]; try discriminate.
+      * cbn [datas length]. repeat split; try assumption. lia.
+      * specialize (IH (buf ++ d) Hr). cbn zeta in IH. cbn [datas concat length].
+        rewrite app_assoc.
+        destruct (poll_decode_b64 (buf ++ d) r) as [[o b'] r']. destruct o; try exact IH.
+        -- destruct IH as (I1 & I2 & I3). repeat split; try assumption. lia.
+        -- destruct IH as (k & K1 & K2 & K3 & K4 & K5 & K6). exists k. repeat split; try assumption. lia.
+    + specialize (BIGBUF buf (x :: r) E).
+      destruct (dec (ntake (max_decodable buf) buf)) as [d|].
+      * destruct BIGBUF as (k & K1 & K2 & K3 & K4). exists k. repeat split; try assumption.
+        -- cbn [only_data_or_pending forallb]. now rewrite Hx, Hr.
+        -- lia.
+      * now left.
+Qed.
+
+Lemma drain_b64_sound n : forall buf evs, only_data_or_pending evs = true ->
+  (length evs + (length buf + length (concat (datas evs))) / 4 + 2 <= n)%nat ->
+  let W := buf ++ concat (datas evs) in
+  exists ds last k,
+    drain_b64 n buf evs = map SData ds ++ [last] /\
+    (4 * k <= length W)%nat /\
+    dec_quanta (firstn (4 * k) W) = Some (concat ds) /\
+    (last = SNone -> (4 * k)%nat = length W) /\
+    (last = SNone \/ last = SErr SE_BASE64 \/ last = SErr SE_LEFTOVER).
+Proof.
+  induction n as [|n IH]; intros buf evs He L W; [lia|].
+  cbn [drain_b64]. pose proof (poll_b64_sound evs buf He) as P. cbn zeta in P. fold W in P.
+  assert (LW : length W = (length buf + length (concat (datas evs)))%nat) by (unfold W; now rewrite app_length).
+  destruct (poll_decode_b64 buf evs) as [[o b'] r']. destruct o as [|d|t|c| |]; try contradiction.
+  - (* Pending *)
+    destruct P as (P1 & P2 & P3).
+    destruct (IH b' r' P2) as (ds & last & k & D1 & D2 & D3 & D4 & D5).
+    { assert (length b' + length (concat (datas r')) = length W)%nat by (rewrite <- app_length; now f_equal).
+      rewrite H, LW. lia. }
+    cbn zeta in *. rewrite P1 in *. exists ds, last, k. repeat split; assumption.
+  - (* Data *)
+    destruct P as (k1 & K1 & K2 & K3 & K4 & K5 & K6).
+    assert (LW' : (length b' + length (concat (datas r')) = length W - 4 * k1)%nat).
+    { rewrite <- app_length, K4, skipn_length. reflexivity. }
+    destruct (IH b' r' K5) as (ds & last & k2 & D1 & D2 & D3 & D4 & D5).
+    { rewrite LW'.
+      assert ((length W - 4 * k1) / 4 + 1 <= length W / 4)%nat.
+      { replace ((length W - 4 * k1) / 4 + 1)%nat with ((length W - 4 * k1 + 1 * 4) / 4)%nat
+          by (rewrite Nat.div_add by lia; reflexivity).
+        apply Nat.div_le_mono; lia. }
+      rewrite LW in H. lia. }
+    cbn zeta in *. rewrite K4 in *. rewrite skipn_length in D2, D4.
+    exists (d :: ds), last, (k1 + k2)%nat. repeat split.
+    + cbn [map app]. now rewrite D1.
+    + lia.
+    + replace (4 * (k1 + k2))%nat with (4 * k1 + 4 * k2)%nat by lia.
+      rewrite firstn_add by lia. cbn [concat]. now apply dec_quanta_app.
+    + intros E. specialize (D4 E). lia.
+    + exact D5.
+  - (* error *)
+    exists [], (SErr c), 0%nat. cbn [map app Nat.mul firstn concat dec_quanta]. repeat split; try lia.
+    + discriminate.
+    + destruct P as [-> | ->]; auto.
+  - (* end *)
+    exists [], SNone, 0%nat. cbn [map app Nat.mul firstn concat dec_quanta]. repeat split; try lia.
+    + intros _. now rewrite P.
+    + now left.
+Qed.
+
+(* ANY text request body (padded, unpadded, several padded segments, garbage), cut anywhere:
+   the data items the inner service receives before the body ends or fails are the
+   per-quantum decoding of a prefix of the characters sent; a clean end is reported only when
+   EVERY character has been decoded.  So the inner service never sees bytes that are not the
+   original bytes, and never a silently shortened body. *)
+Theorem req_text_sound evs : only_data_or_pending evs = true ->
+  let W := concat (datas evs) in
+  exists ds last k,
+    drain_request Base64 evs = map SData ds ++ [last] /\
+    (4 * k <= length W)%nat /\
+    dec_quanta (firstn (4 * k) W) = Some (concat ds) /\
+    (last = SNone -> (4 * k)%nat = length W) /\
+    (last = SNone \/ last = SErr SE_BASE64 \/ last = SErr SE_LEFTOVER).
+Proof.
+  intros He. unfold drain_request, b64_polls.
+  apply (drain_b64_sound _ [] evs He). cbn [length]. lia.
+Qed.
+
+(* ---- the request body read by a hyper-like consumer ---- *)
+Lemma drain_b64_S n buf evs : drain_b64 (S n) buf evs =
+  match poll_decode_b64 buf evs with
+  | (SPending, b, r) => drain_b64 n b r
+  | (SData d, b, r) => SData d :: drain_b64 n b r
+  | (o, _, _) => [o]
+  end.
+Proof. reflexivity. Qed.
+
+(* is_end_stream of the Decode direction (inner body at its end AND nothing buffered, fix
+   f0f96413) stops the consumer only where the next poll would have been the clean end *)
+Lemma hyper_b64_complete n : forall buf evs,
+  match hyper_b64 n 1 buf evs with
+  | (l, true) => drain_b64 (S n) buf evs = l ++ [SNone]
+  | (l, false) => drain_b64 n buf evs = l
+  end.
+Proof.
+  induction n as [|n IH]; intros buf evs; [reflexivity|].
+  cbn [hyper_b64]. rewrite (drain_b64_S (S n) buf evs), (drain_b64_S n buf evs).
+  destruct (poll_decode_b64 buf evs) as [[o b'] r']. destruct o; try reflexivity.
+  - exact (IH b' r').
+  - destruct (wc_is_end_stream (mkCall DDecode Base64 b') (inner_eos 1 r')) eqn:E.
+    + cbn [wc_is_end_stream wc_dir wc_buf] in E. rewrite inner_eos_1 in E.
+      apply andb_true_iff in E as [E1 E2].
+      destruct r'; [|discriminate].
+      destruct b'; [|unfold nlen in E2; cbn [length] in E2; lia].
+      reflexivity.
+    + specialize (IH b' r'). destruct (hyper_b64 n 1 b' r') as [l [|]]; cbn [app]; now rewrite IH.
+Qed.
+
+(* the canonical text request under any chunking, read by a consumer that stops at
+   is_end_stream() (hyper): the whole payload, no error *)
+Theorem req_text_hyper payload evs :
+  bytes_ok payload = true -> only_data_or_pending evs = true ->
+  concat (datas evs) = enc true payload ->
+  exists ds, concat ds = payload /\
+    (hyper_request Base64 1 evs = (map SData ds, true) \/
+     hyper_request Base64 1 evs = (map SData ds ++ [SNone], false)).
+Proof.
+  intros Hb He H. unfold hyper_request. cbn [wc_is_end_stream wc_request wc_dir wc_buf].
+  rewrite inner_eos_1. destruct evs as [|x r] eqn:EV.
+  - cbn [datas concat] in H. symmetry in H. apply enc_nil_iff in H. subst payload.
+    exists []. split; [reflexivity|]. now left.
+  - rewrite <- EV in *. clear EV x r. cbn [andb].
+    pose proof (hyper_b64_complete (b64_polls evs) [] evs) as C.
+    destruct (hyper_b64 (b64_polls evs) 1 [] evs) as [l [|]].
+    + destruct (drain_b64_spec [] (S (b64_polls evs)) ltac:(cbn; lia) [] evs payload Hb He) as [ds [D1 D2]].
+      * cbn [app]. now rewrite app_nil_r.
+      * unfold b64_polls. cbn [length]. lia.
+      * rewrite D1 in C. change (final_of []) with SNone in C.
+        apply app_inj_tail in C. destruct C as [<- _]. exists ds. split; [exact D2|now left].
+    + destruct (drain_b64_spec [] (b64_polls evs) ltac:(cbn; lia) [] evs payload Hb He) as [ds [D1 D2]].
+      * cbn [app]. now rewrite app_nil_r.
+      * unfold b64_polls. cbn [length]. lia.
+      * rewrite D1 in C. change (final_of []) with SNone in C.
+        exists ds. split; [exact D2|right; now rewrite <- C].
+Qed.
+
+(* a binary request body read by the same consumer: every chunk, unchanged *)
+Lemma hyper_none_data evs : only_data_or_pending evs = true ->
+  hyper_none 1 evs = (map SData (datas evs), true) \/
+  hyper_none 1 evs = (map SData (datas evs) ++ [SNone], false).
+Proof.
+  induction evs as [|x r IH]; intros H; [now right|].
+  cbn [only_data_or_pending forallb] in H. apply andb_true_iff in H as [Hx Hr].
+  specialize (IH Hr).
+  destruct x as [|d|t|]; try discriminate; cbn [hyper_none poll_decode_none fst datas map app].
+  - exact IH.
+  - cbn [wc_is_end_stream wc_request wc_dir wc_buf]. rewrite inner_eos_1.
+    destruct r as [|y r'].
+    + left. reflexivity.
+    + cbn [andb]. destruct IH as [-> | ->]; [left|right]; reflexivity.
+Qed.
+
+Theorem req_binary_hyper evs : only_data_or_pending evs = true ->
+  hyper_request NoEnc 1 evs = (map SData (datas evs), true) \/
+  hyper_request NoEnc 1 evs = (map SData (datas evs) ++ [SNone], false).
+Proof.
+  intros H. unfold hyper_request. cbn [wc_is_end_stream wc_request wc_dir wc_buf].
+  rewrite inner_eos_1. destruct evs as [|x r]; [now left|]. now apply hyper_none_data.
+Qed.
+
+(* ---- Body::size_hint (F-C16a) ---- *)
+(* the hint the caller of the layer reads before the first poll covers the bytes it then
+   receives, whatever the inner body reports (exact hint or none, any is_end_stream behaviour),
+   in both encodings: a consumer that derives a Content-Length from the hint cuts nothing *)
+Theorem resp_size_hint_covers mode exact a revs :
+  hint_covers (resp_size_hint mode exact a revs) (nlen (out_bytes (fst (hyper_encode mode a revs)))).
+Proof.
+  unfold resp_size_hint, hyper_encode, hint_covers.
+  destruct (wc_is_end_stream (wc_response a) (inner_eos mode revs)).
+  - cbn. split; lia.
+  - destruct a; cbn [wc_size_hint wc_response wc_dir wc_enc fst snd]; split; try exact I; lia.
+Qed.
+
+(* the same for a consumer that polls until None (mode 0: the inner body never reports its end) *)
+Theorem resp_size_hint_covers_drain exact a revs :
+  hint_covers (wc_size_hint (wc_response a) (inner_size_hint exact revs))
+              (nlen (out_bytes (drain_encode a revs))).
+Proof.
+  unfold hint_covers. destruct a; cbn [wc_size_hint wc_response wc_dir wc_enc fst snd]; split; try exact I; lia.
+Qed.
+
+(* request direction: a binary body is passed on unchanged and keeps the hint of the body it
+   wraps; a text body gives no hint *)
+Theorem req_size_hint_covers e exact qevs : only_data_or_pending qevs = true ->
+  hint_covers (wc_size_hint (wc_request e) (inner_size_hint exact qevs))
+              (nlen (out_bytes (drain_request e qevs))).
+Proof.
+  intros H. unfold hint_covers. destruct e; cbn [wc_size_hint wc_request wc_dir wc_enc fst snd].
+  - split; [lia|exact I].
+  - destruct (req_binary qevs H) as [_ E]. rewrite E. unfold inner_size_hint.
+    destruct exact; cbn [fst snd]; split; try exact I; lia.
+Qed.
+
+(* ---- pass-through ---- *)
+(* every frame of a body that is not translated (Encoding::None request, non-grpc-web HTTP/2
+   calls): data and trailers frames unchanged, in order, up to the end or the first error *)
+Fixpoint passthrough (evs : list ev) : list sout :=
+  match evs with
+  | [] => [SNone]
+  | EvPending :: r => passthrough r
+  | EvData d :: r => SData d :: passthrough r
+  | EvTrailers t :: r => STrailers t :: passthrough r
+  | EvErr :: _ => [SErr SE_INNER]
+  end.
+
+Lemma drain_none_n_passthrough n : forall evs, (length evs < n)%nat -> drain_none_n n evs = passthrough evs.
+Proof.
+  induction n as [|n IH]; intros evs L; [lia|].
+  destruct evs as [|x r]; [reflexivity|]. cbn [length] in L.
+  destruct x; cbn [drain_none_n poll_decode_none passthrough]; try reflexivity;
+    try (f_equal); apply IH; lia.
+Qed.
+
+Theorem drain_none_passthrough evs : drain_none evs = passthrough evs.
+Proof. unfold drain_none. apply drain_none_n_passthrough. lia. Qed.
+
+(* ================= one state machine: Body::poll_frame ================= *)
+(* The consumers above (drain_encode, drain_request: what obs_call evaluates) are views of the
+   poll-by-poll run of GrpcWebCall::poll_frame over its state (wc_polls: what the polls.* kinds
+   evaluate): drop the Pending results and stop at the first item that is not data / trailers. *)
+Fixpoint settle (l : list sout) : list sout :=
+  match l with
+  | [] => []
+  | SPending :: r => settle r
+  | SData d :: r => SData d :: settle r
+  | STrailers t :: r => STrailers t :: settle r
+  | o :: _ => [o]
+  end.
+
+Lemma polls_encode e evs : forall n, (length evs < n)%nat ->
+  settle (wc_polls n (wc_response e) evs) = drain_encode e evs.
+Proof.
+  induction evs as [|x r IH]; intros n L; (destruct n as [|n]; [cbn [length] in L; lia|]).
+  - reflexivity.
+  - cbn [length] in L. cbn [wc_polls wc_poll_frame wc_response wc_dir wc_enc drain_encode].
+    specialize (IH n ltac:(lia)).
+    destruct x as [|d|t|]; cbn [answer_of poll_encode].
+    + cbn [settle]. exact IH.
+    + cbn [settle]. now rewrite IH.
+    + destruct (make_trailers_frame t); [|reflexivity]. cbn [settle]. now rewrite IH.
+    + reflexivity.
+Qed.
+
+Lemma polls_none evs : forall n, (length evs < n)%nat ->
+  settle (wc_polls n (wc_request NoEnc) evs) = drain_none_n n evs.
+Proof.
+  induction evs as [|x r IH]; intros n L; (destruct n as [|n]; [cbn [length] in L; lia|]).
+  - reflexivity.
+  - cbn [length] in L. specialize (IH n ltac:(lia)).
+    cbn [wc_polls wc_poll_frame wc_request wc_dir wc_enc drain_none_n poll_decode_none].
+    destruct x as [|d|t|]; cbn [settle]; try reflexivity; try exact IH; now rewrite IH.
+Qed.
+
+(* every poll of the base64 decoder makes progress: a data item takes at least four buffered
+   characters, a Pending one event *)
+Lemma poll_b64_progress evs : forall buf,
+  match poll_decode_b64 buf evs with
+  | (SData _, b', r') =>
+      (length b' + length (concat (datas r')) + 4 <= length buf + length (concat (datas evs)))%nat /\
+      (length r' <= length evs)%nat
+  | (SPending, b', r') =>
+      (length b' + length (concat (datas r')) <= length buf + length (concat (datas evs)))%nat /\
+      (length r' < length evs)%nat
+  | (STrailers _, _, _) => False
+  | _ => True
+  end.
+Proof.
+  assert (BIGBUF : forall buf, (nlen buf <? 4) = false ->
+            (length (ndrop (max_decodable buf) buf) + 4 <= length buf)%nat).
+  { intros buf E. rewrite max_decodable_nat, ndrop_nat, skipn_length.
+    assert (L4 : (4 <= length buf)%nat) by (unfold nlen in E; lia).
+    assert (1 <= length buf / 4)%nat by (apply Nat.div_le_lower_bound; lia).
+    pose proof (Nat.div_mod (length buf) 4 ltac:(lia)). lia. }
+  induction evs as [|x r IH]; intros buf; cbn [poll_decode_b64]; unfold decode_chunk;
+    destruct (nlen buf <? 4) eqn:E.
+  - now destruct (nlen buf =? 0).
+  - specialize (BIGBUF buf E). destruct (dec (ntake (max_decodable buf) buf)); [|exact I].
+    cbn [datas concat length]. lia.
+  - destruct x as [|d|t|]; try exact I.
+    + cbn [datas length]. lia.
+    + specialize (IH (buf ++ d)). cbn [datas concat length]. rewrite !app_length in *.
+      destruct (poll_decode_b64 (buf ++ d) r) as [[o b'] r']. destruct o; try exact I; try exact IH; lia.
+  - specialize (BIGBUF buf E). destruct (dec (ntake (max_decodable buf) buf)); [|exact I].
+    cbn [length]. lia.
+Qed.
+
+Lemma polls_b64 n : forall buf evs,
+  (length evs + (length buf + length (concat (datas evs))) / 4 + 2 <= n)%nat ->
+  settle (wc_polls n (mkCall DDecode Base64 buf) evs) = drain_b64 n buf evs.
+Proof.
+  induction n as [|n IH]; intros buf evs L; [lia|].
+  cbn [wc_polls wc_poll_frame wc_dir wc_enc wc_buf drain_b64].
+  pose proof (poll_b64_progress evs buf) as P.
+  destruct (poll_decode_b64 buf evs) as [[o b'] r'].
+  destruct o as [|d|t|c| |]; cbn [settle wc_set_buf wc_dir wc_enc wc_buf]; try reflexivity; try contradiction.
+  - destruct P as [P1 P2]. apply IH.
+    assert ((length b' + length (concat (datas r'))) / 4 <=
+            (length buf + length (concat (datas evs))) / 4)%nat by (apply Nat.div_le_mono; lia).
+    lia.
+  - destruct P as [P1 P2]. f_equal. apply IH.
+    assert ((length b' + length (concat (datas r'))) / 4 + 1 <=
+            (length buf + length (concat (datas evs))) / 4)%nat.
+    { replace (_ / 4 + 1)%nat with ((length b' + length (concat (datas r')) + 1 * 4) / 4)%nat
+        by (rewrite Nat.div_add by lia; reflexivity).
+      apply Nat.div_le_mono; lia. }
+    lia.
+Qed.
+
+(* for EVERY script: the poll-until-the-end consumers are the poll-by-poll run of poll_frame *)
+Theorem polls_drain_response e evs :
+  settle (wc_polls (S (length evs)) (wc_response e) evs) = drain_encode e evs.
+Proof. apply polls_encode. lia. Qed.
+
+Theorem polls_drain_request e evs :
+  settle (wc_polls (match e with Base64 => b64_polls evs | NoEnc => S (length evs) end) (wc_request e) evs) =
+  drain_request e evs.
+Proof.
+  destruct e; unfold drain_request.
+  - apply polls_b64. unfold b64_polls. cbn [length]. lia.
+  - unfold drain_none. apply polls_none. lia.
 Qed.
 
 (* ================= the four cases of GrpcWebService::call ================= *)
@@ -402,13 +954,21 @@ Proof.
   apply get_all_remove_other. rewrite bytes_eqb_sym. exact E4.
 Qed.
 
+(* the response the caller sees: the content-type of the encoding the Accept header asked for,
+   NO content-length (the inner service described the untranslated body: F-C16b), every other
+   header untouched *)
 Theorem coerce_response_spec h a k :
   hm_get_all (coerce_response_headers h a) k =
-    if bytes_eqb k H_CONTENT_TYPE then [to_content_type a] else hm_get_all h k.
+    if bytes_eqb k H_CONTENT_TYPE then [to_content_type a]
+    else if bytes_eqb k H_CONTENT_LENGTH then []
+    else hm_get_all h k.
 Proof.
   unfold coerce_response_headers. destruct (bytes_eqb k H_CONTENT_TYPE) eqn:E.
   - apply bytes_eqb_eq in E. subst k. apply get_all_insert_same.
-  - apply get_all_insert_other. rewrite bytes_eqb_sym. exact E.
+  - rewrite get_all_insert_other by (rewrite bytes_eqb_sym; exact E).
+    destruct (bytes_eqb k H_CONTENT_LENGTH) eqn:E4.
+    + apply bytes_eqb_eq in E4. subst k. apply get_all_remove_same.
+    + apply get_all_remove_other. rewrite bytes_eqb_sym. exact E4.
 Qed.
 
 (* a translated call as a whole: what obs_call shows for a POST with a grpc-web content-type *)
@@ -423,6 +983,30 @@ Theorem translate_call method version headers qevs rstatus rheaders revs :
 Proof.
   intros Hw Hm. unfold obs_call.
   destruct (kind_table method version headers) as (K & _). now rewrite (K Hw Hm).
+Qed.
+
+(* other HTTP/2 requests pass through untouched: headers, status and every body frame *)
+Theorem pass_through_call method version headers qevs rstatus rheaders revs :
+  ~ is_web_type (hm_get headers H_CONTENT_TYPE) -> version = HTTP_2 ->
+  obs_call method version headers qevs rstatus rheaders revs =
+  Nd [Nn 4; hm_canon headers; olist sout_tr (passthrough qevs); Nn rstatus; hm_canon rheaders;
+      olist sout_tr (passthrough revs)].
+Proof.
+  intros Hw Hv. unfold obs_call.
+  destruct (kind_table method version headers) as (_ & _ & K & _). rewrite (K Hw Hv).
+  now rewrite !drain_none_passthrough.
+Qed.
+
+(* grpc-web content-type with another method: 405; anything else over HTTP/1: 400; in both
+   cases the inner service is not called *)
+Theorem immediate_call method version headers qevs rstatus rheaders revs :
+  (is_web_type (hm_get headers H_CONTENT_TYPE) -> method <> M_POST ->
+     obs_call method version headers qevs rstatus rheaders revs = Nd [Nn 2; Nn 405]) /\
+  (~ is_web_type (hm_get headers H_CONTENT_TYPE) -> version <> HTTP_2 ->
+     obs_call method version headers qevs rstatus rheaders revs = Nd [Nn 3; Nn 400]).
+Proof.
+  unfold obs_call. destruct (kind_table method version headers) as (_ & K1 & _ & K2).
+  split; intros Hw Hm; [rewrite (K1 Hw Hm)|rewrite (K2 Hw Hm)]; reflexivity.
 Qed.
 
 (* make_trailers_frame panics exactly when the block does not fit a u32 length *)
@@ -455,6 +1039,33 @@ Theorem resp_binary_decodes frames tl sevs cevs :
 Proof.
   intros Hf Ht Hs Hl Hc Hse Hsd Hce Hcd.
   destruct (resp_binary sevs tl Hse Hl) as [_ E]. rewrite E, Hsd in Hcd.
+  destruct (Verif.Proofs.WebClient.any_chunking frames tl cevs Hf Ht Hs Hl Hc Hce Hcd)
+    as (ds & t & E1 & E2 & E3 & _).
+  exists ds. subst t. split; assumption.
+Qed.
+
+(* text mode: the per-quantum reading of the emitted characters is a byte string from which the
+   same client decoder, under ANY chunking, recovers the messages and the trailers *)
+Theorem resp_text_decodes frames tl sevs :
+  Verif.Proofs.WebClient.frames_ok frames ->
+  Verif.Proofs.WebClient.trailers_ok tl = true ->
+  Verif.Proofs.WebClient.no_leading_space tl = true ->
+  nlen (encode_trailers tl) <= U32_MAX -> nlen tl <= Verif.Model.WebClient.HM_MAX_NAMES ->
+  only_data_or_pending sevs = true -> concat (datas sevs) = Verif.Proofs.WebClient.fcat frames ->
+  forallb bytes_ok (datas sevs) = true -> bytes_ok (encode_trailers tl) = true ->
+  exists B,
+    dec_quanta (out_bytes (drain_encode Base64 (sevs ++ [EvTrailers tl]))) = Some B /\
+    forall cevs, only_data_or_pending cevs = true -> concat (datas cevs) = B ->
+    exists ds,
+      Verif.Model.WebClient.run cevs =
+        map Verif.Model.WebClient.OData ds ++
+        [Verif.Model.WebClient.OTrailers tl; Verif.Model.WebClient.ONone] /\
+      concat ds = Verif.Proofs.WebClient.fcat frames.
+Proof.
+  intros Hf Ht Hs Hl Hc Hse Hsd Hb1 Hb2.
+  destruct (resp_text sevs tl Hse Hl Hb1 Hb2) as [_ E].
+  exists (concat (datas sevs) ++ trailers_frame tl). split; [exact E|].
+  intros cevs Hce Hcd. rewrite Hsd in Hcd.
   destruct (Verif.Proofs.WebClient.any_chunking frames tl cevs Hf Ht Hs Hl Hc Hce Hcd)
     as (ds & t & E1 & E2 & E3 & _).
   exists ds. subst t. split; assumption.
